@@ -822,6 +822,42 @@ def load_known():
     return out
 
 
+def sig_in_order_modulo_repeats(lines):
+    """the late-subscriber findings: an item whose push OVERLAPS the late subscriber's subscribe() call may reach it twice, the
+    live copy anywhere before the copy it is handed / replayed; once that first copy of each such duplicated item is dropped,
+    every subscriber has each producer's items once and in order (a gap is possible for BehaviorSubject).  An item that arrives
+    out of order WITHOUT being duplicated, or a duplicate of an item pushed outside the subscribe() call, is not this finding."""
+    ev = [json.loads(x) for x in lines]
+    sub = {}
+    for i, e in enumerate(ev):
+        if e['ev'] == 'subcall' and e['u'] not in sub:
+            sub[e['u']] = [i, len(ev)]
+        elif e['ev'] == 'subret' and e['u'] in sub and sub[e['u']][1] == len(ev):
+            sub[e['u']][1] = i
+    calls = {}
+    for i, e in enumerate(ev):
+        if e['ev'] == 'emitcall' and e['k'] == 'n':
+            calls[e['v']] = [i, len(ev)]
+        elif e['ev'] == 'emitret' and e['k'] == 'n' and e['v'] in calls:
+            calls[e['v']][1] = i
+    per = {}
+    for e in ev:
+        if e['ev'] == 'cbstart' and e['k'] == 'n':
+            per.setdefault(e['u'], []).append(e['v'])
+    for u, vs in per.items():
+        s0, s1 = sub.get(u, [0, 0])
+        overlap = set(v for v, (c, r) in calls.items() if c < s1 and r > s0)
+        rest = list(vs)
+        for v in overlap:
+            if rest.count(v) == 2:
+                rest.remove(v)          # the first (live) copy
+        for prod in set(v // 10 for v in rest):
+            seq = [v for v in rest if v // 10 == prod]
+            if seq != sorted(set(seq)):
+                return False
+    return True
+
+
 def sig_self_deadlock(lines, site):
     """some thread is blocked forever on a lock created in `site` that it holds itself (same-thread re-entrancy, not a lock-order cycle)"""
     q = json.loads(lines[-1])
@@ -855,6 +891,8 @@ def sig_zip_reorder(lines):
 def kf_match(kf, prop, flag, name, fin, lines=None):
     m = kf['match']
     if m.get('signature') == 'zip_reorder' and not (lines and sig_zip_reorder(lines)):
+        return False
+    if m.get('signature') == 'in_order_modulo_repeats' and not (lines and sig_in_order_modulo_repeats(lines)):
         return False
     if m.get('signature') == 'self_deadlock' and not (lines and sig_self_deadlock(lines, m.get('site', ''))):
         return False
